@@ -1,15 +1,72 @@
 (* Property C07 — NFT nonces are unique and strictly increasing per token.
-   Only statements, each closed by [exact] of a lemma of LedgerProofs/C07_*.v, their assumptions, pins and
-   non-vacuity examples.  (Exec-level part; the history-level part is added below as it is closed.) *)
+   Only statements, each closed by [exact] of a lemma of LedgerProofs/C07_Exec.v (one call), C07_Emit.v (emitted
+   messages), C07_World.v (histories) and C07_Histories.v (checker, re-delivery, concrete histories), their
+   assumptions, pins and non-vacuity examples.
+
+   Reading guide.
+   ONE CALL.  [E : env] is arbitrary with [codec_ok (cdc E)]; [counter_at s a tok] is the big-endian counter under
+   ELRONDnonce ++ tok in account a, [roles_at E s a tok] the decoded role list under ELRONDroleesdt ++ tok,
+   [has_role ... C.ESDTRoleNFTCreate] membership.  SetESDTRole appends without deduplicating and the hand-over
+   removes ONE occurrence, so "holds the create role once" is [cnt CR roles <= 1] ([cnt] counts occurrences).
+   Go's uint64 wrap of the counter is modelled ([u64]); the hypothesis counter + 1 < 2^64 is explicit wherever
+   "= counter + 1" is claimed.
+   HISTORIES.  The world model is Ledger/World.v: [wrun c w ops] over operations OCall (a transaction or a
+   system-contract call executed on one shard), ODeliver (consuming delivery of an in-flight message), ORedeliver
+   (delivery that leaves the message in flight: at-least-once transport), ORefund (return of a message whose delivery
+   failed).  [op_exec c w op] is the call (shard, function, input) the operation attempts; [wrun_log] is [wrun]
+   instrumented with the log of the successful executions (C07_wrun_log_world: same final world); [issued tok log]
+   is the history variable: the nonces returned by the successful ESDTNFTCreate executions for tok, in issue order.
+   THE DISCIPLINE ([disciplined c tok g w ops], spelled out in C07_discipline_unfolded; g = "a grant of the create
+   role for tok has already been attempted") constrains only what concerns tok's create role and is otherwise
+   satisfied by ARBITRARY operations (transfers, burns, freezes, SaveKeyValue, other tokens, other roles of tok,
+   deliveries, re-deliveries and refunds of other messages, failing calls):
+     (1) an ESDTSetRole for tok whose role list contains ESDTRoleNFTCreate is executed at most once in the history,
+         and that list contains the role exactly once;
+     (2) no ESDTUnSetRole for tok whose role list contains ESDTRoleNFTCreate is executed;
+     (3) an ESDTNFTCreateRoleTransfer for tok is executed only (a) as an OCall whose caller is the ESDT system
+         contract and whose recipient currently holds the create role, or (b) by the consuming delivery or the
+         refund of an in-flight message — never by ORedeliver, never as an OCall by anybody else (the destination
+         branch of the function has no authorisation of its own: C07_forged_handover_refuted);
+     (4) every OCall's recipient-presence flag is truthful, i_dst = (recipient's shard = executing shard) — which a
+         node guarantees by construction (C07_lying_presence_flag_refuted shows what a lying flag allows).
+   [nowrap c tok w ops]: every attempted ESDTNFTCreate for tok finds counter + 1 < 2^64.
+   [init_ok]: the start world has the configured number of shards, nobody holds the create role for tok and no
+   ESDTNFTCreateRoleTransfer message for tok is in flight (e.g. the empty world: C07_init_ok_empty).
+   KNOWN FINDING F9 (not excluded by weakening anything: the theorems assume (3), the witnesses violate only it):
+   C07_nonces_unique_redelivery_refuted, C07_two_holders_redelivery_refuted. *)
 From Coq.Strings Require Import String.
+From Coq Require Import List Sorted.
 From EV Require Import Base.Bytes Base.Store Base.Monad gen.Consts Codec.Types Codec.CodecOk Helpers.Helpers
   Ledger.Types Ledger.Env Ledger.Funcs Ledger.Transfers Ledger.World
-  LedgerProofs.Defs LedgerProofs.EnvSpec LedgerProofs.WorldDefs
-  LedgerProofs.Spec_Transfers_Base LedgerProofs.Spec_System LedgerProofs.C07_Exec.
+  LedgerProofs.Defs LedgerProofs.EnvSpec LedgerProofs.WorldDefs LedgerProofs.WorldSpec
+  LedgerProofs.Spec_Transfers_Base LedgerProofs.Spec_System
+  LedgerProofs.C07_Exec LedgerProofs.C07_Emit LedgerProofs.C07_World LedgerProofs.C07_Histories.
+Import ListNotations.
 
 Local Open Scope N_scope.
 
-(* ---- one call ---- *)
+(* ---- pins: the names and keys the property text mentions ---- *)
+Example C07_pinned_constants :
+  C.BuiltInFunctionESDTNFTCreate = str "ESDTNFTCreate"%string
+  /\ C.BuiltInFunctionESDTNFTCreateRoleTransfer = str "ESDTNFTCreateRoleTransfer"%string
+  /\ C.BuiltInFunctionSetESDTRole = str "ESDTSetRole"%string
+  /\ C.BuiltInFunctionUnSetESDTRole = str "ESDTUnSetRole"%string
+  /\ C.ESDTRoleNFTCreate = str "ESDTRoleNFTCreate"%string
+  /\ NP = str "ELRONDnonce"%string /\ RP = str "ELRONDroleesdt"%string /\ P = str "ELRONDesdt"%string
+  /\ two64 = 2 ^ 64 /\ zlen SC = 32.
+Proof. repeat split. Qed.
+(* the observables *)
+Example C07_observables_unfolded : forall (E : env) s a tok r,
+  counter_at s a tok = match cell s a (NP ++ tok) with [] => 0 | b => bigU64 b end
+  /\ has_role E s a tok r = bytes_in r (roles_at E s a tok)
+  /\ cnt r (roles_at E s a tok) = length (filter (beqb r) (roles_at E s a tok)).
+Proof. intros. repeat split. Qed.
+
+(* ================================================================== *)
+(* one call                                                             *)
+(* ================================================================== *)
+(* ESDTNFTCreate needs the create role, returns and stores nonce = u64 (counter + 1) and persists it as the new
+   counter; = counter + 1 when that does not wrap *)
 Theorem C07_create_returns_counter_succ : forall (E : env), codec_ok (cdc E) -> forall i s o s',
   exec E C.BuiltInFunctionESDTNFTCreate i s = (Ok o, s') ->
   let tok := argn i 0 in
@@ -23,4 +80,358 @@ Theorem C07_create_returns_counter_succ : forall (E : env), codec_ok (cdc E) -> 
   /\ (counter_at s (i_caller i) tok + 1 < two64 -> n = counter_at s (i_caller i) tok + 1).
 Proof. exact create_returns_counter_succ. Qed.
 
+(* the system contract's hand-over at the current owner, new owner on the same shard: the new owner gets the old
+   counter and the role; the old owner's counter is 0 and one occurrence of the role is removed (none left if it
+   held the role once) *)
+Theorem C07_handover_moves_counter_same_shard : forall (E : env), codec_ok (cdc E) -> forall i s o s',
+  exec E C.BuiltInFunctionESDTNFTCreateRoleTransfer i s = (Ok o, s') -> i_caller i = SC ->
+  (shard_of E (argn i 1) =? self_shard E) = true ->
+  let tok := argn i 0 in let old := i_rcpt i in let new := argn i 1 in
+  i_args i = [tok; new]
+  /\ counter_at s' new tok = counter_at s old tok
+  /\ has_role E s' new tok C.ESDTRoleNFTCreate = true
+  /\ (new <> old -> counter_at s' old tok = 0
+                    /\ roles_at E s' old tok = del_create (roles_at E s old tok)
+                    /\ ((cnt C.ESDTRoleNFTCreate (roles_at E s old tok) <= 1)%nat ->
+                        has_role E s' old tok C.ESDTRoleNFTCreate = false))
+  /\ roles_at E s' new tok = add_create (if beqb new old then del_create (roles_at E s old tok) else roles_at E s new tok)
+  /\ unchanged_except (fun a k => (a = old \/ a = new) /\ (k = NP ++ tok \/ k = RP ++ tok)) (fun _ => False) s s'.
+Proof. exact handover_moves_counter_same_shard. Qed.
+
+(* ... new owner on another shard: the old owner loses counter and role, the counter leaves in the message *)
+Theorem C07_handover_moves_counter_cross_shard : forall (E : env), codec_ok (cdc E) -> forall i s o s',
+  exec E C.BuiltInFunctionESDTNFTCreateRoleTransfer i s = (Ok o, s') -> i_caller i = SC ->
+  (shard_of E (argn i 1) =? self_shard E) = false ->
+  let tok := argn i 0 in let old := i_rcpt i in let new := argn i 1 in
+  i_args i = [tok; new]
+  /\ o_accounts o = [{| oc_addr := new; oc_delta := 0;
+                        oc_transfers := [handover_msg SC tok (counter_at s old tok)] |}]
+  /\ counter_at s' old tok = 0
+  /\ roles_at E s' old tok = del_create (roles_at E s old tok)
+  /\ ((cnt C.ESDTRoleNFTCreate (roles_at E s old tok) <= 1)%nat -> has_role E s' old tok C.ESDTRoleNFTCreate = false)
+  /\ unchanged_except (fun a k => a = old /\ (k = NP ++ tok \/ k = RP ++ tok)) (fun _ => False) s s'.
+Proof. exact handover_moves_counter_cross_shard. Qed.
+
+(* the in-flight message built from that output transfer by the node (World.collect) *)
+Theorem C07_collect_handover : forall (c : wcfg) sh i id o new tk n,
+  o_accounts o = [{| oc_addr := new; oc_delta := 0; oc_transfers := [handover_msg SC tk n] |}] ->
+  collect c sh C.BuiltInFunctionESDTNFTCreateRoleTransfer i id o =
+  if (wc_shard_of c new =? sh) then []
+  else [{| m_id := id; m_fn := C.BuiltInFunctionESDTNFTCreateRoleTransfer;
+           m_caller := if (wc_shard_of c SC =? sh) then SC else i_rcpt i;
+           m_dest := new; m_args := [tk; u64_bytes n];
+           m_callType := C.DirectCall; m_gasLimit := 0; m_locked := 0; m_origin := sh; m_sender := i_caller i |}].
+Proof. exact collect_handover. Qed.
+
+(* at the next owner (any caller other than the system contract): counter := carried value, role added *)
+Theorem C07_handover_delivered : forall (E : env), codec_ok (cdc E) -> forall i s o s',
+  exec E C.BuiltInFunctionESDTNFTCreateRoleTransfer i s = (Ok o, s') -> i_caller i <> SC ->
+  let tok := argn i 0 in let new := i_rcpt i in
+  i_args i = [tok; argn i 1]
+  /\ o = mk_out rcOk 0
+  /\ counter_at s' new tok = bigU64 (argn i 1)
+  /\ roles_at E s' new tok = add_create (roles_at E s new tok)
+  /\ has_role E s' new tok C.ESDTRoleNFTCreate = true
+  /\ unchanged_except (fun a k => a = new /\ (k = NP ++ tok \/ k = RP ++ tok)) (fun _ => False) s s'.
+Proof. exact handover_delivered. Qed.
+
+(* frame: outside these writers no built-in function changes a role cell / a counter cell *)
+Example C07_writers_unfolded : forall (E : env) f i a tok,
+  (role_writer E f i a tok <->
+     tok = argn i 0
+     /\ (((f = C.BuiltInFunctionSetESDTRole \/ f = C.BuiltInFunctionUnSetESDTRole) /\ a = i_rcpt i)
+         \/ (f = C.BuiltInFunctionESDTNFTCreateRoleTransfer
+             /\ (a = i_rcpt i \/ (a = argn i 1 /\ i_caller i = SC /\ shard_of E (argn i 1) = self_shard E)))))
+  /\ (counter_writer E f i a tok <->
+     tok = argn i 0
+     /\ ((f = C.BuiltInFunctionESDTNFTCreate /\ a = i_caller i)
+         \/ (f = C.BuiltInFunctionESDTNFTCreateRoleTransfer
+             /\ (a = i_rcpt i \/ (a = argn i 1 /\ i_caller i = SC /\ shard_of E (argn i 1) = self_shard E))))).
+Proof. intros. split; reflexivity. Qed.
+Theorem C07_exec_rn_frame : forall (E : env), codec_ok (cdc E) -> forall f i s o s',
+  exec E f i s = (Ok o, s') ->
+  forall a tok,
+    (~ role_writer E f i a tok -> cell s' a (RP ++ tok) = cell s a (RP ++ tok))
+    /\ (~ counter_writer E f i a tok -> cell s' a (NP ++ tok) = cell s a (NP ++ tok)).
+Proof. exact exec_rn_frame. Qed.
+(* ESDTSetRole appends the given roles, ESDTUnSetRole removes one occurrence of each; system contract only *)
+Theorem C07_set_role_effect : forall (E : env), codec_ok (cdc E) -> forall (set : bool) i s o s',
+  exec E (if set then C.BuiltInFunctionSetESDTRole else C.BuiltInFunctionUnSetESDTRole) i s = (Ok o, s') ->
+  i_caller i = SC /\ i_args i = argn i 0 :: tl (i_args i) /\ o = mk_out rcOk 0
+  /\ roles_at E s' (i_rcpt i) (argn i 0) =
+     (if set then roles_at E s (i_rcpt i) (argn i 0) ++ tl (i_args i)
+      else delete_roles (roles_at E s (i_rcpt i) (argn i 0)) (tl (i_args i))).
+Proof. exact set_role_effect. Qed.
+(* no other function puts a message NAMED ESDTNFTCreateRoleTransfer in flight, provided the recipient-presence flag
+   of the input is truthful *)
+Theorem C07_collect_not_handover : forall (c : wcfg) sh f i id o s s',
+  exec (env_at c sh) f i s = (Ok o, s') -> i_dst i = (wc_shard_of c (i_rcpt i) =? sh) ->
+  f <> C.BuiltInFunctionESDTNFTCreateRoleTransfer ->
+  forall m, In m (collect c sh f i id o) -> m_fn m <> C.BuiltInFunctionESDTNFTCreateRoleTransfer.
+Proof. exact collect_not_handover. Qed.
+
+(* ================================================================== *)
+(* histories: definitions spelled out                                   *)
+(* ================================================================== *)
+Example C07_op_exec_unfolded : forall (c : wcfg) w sh fn i id gas,
+  op_exec c w (OCall sh fn i) = (if (sh <? wc_nshards c) then Some (sh, fn, i) else None)
+  /\ op_exec c w (ODeliver id gas) = op_exec c w (ORedeliver id gas)
+  /\ op_exec c w (ODeliver id gas) =
+     match find_msg (inflight w) id with
+     | None => None
+     | Some m => let sh := wc_shard_of c (m_dest m) in
+                 if (sh <? wc_nshards c) then Some (sh, m_fn m, deliver_input c m sh gas) else None
+     end
+  /\ op_exec c w (ORefund id gas) =
+     match find_msg (inflight w) id with
+     | None => None
+     | Some m => let sh := wc_shard_of c (m_sender m) in
+                 if (nat_in id (failed w) && (sh <? wc_nshards c))%bool
+                 then Some (sh, m_fn m, refund_input c m sh gas) else None
+     end.
+Proof. intros. repeat split. Qed.
+Example C07_discipline_unfolded : forall (c : wcfg) tok g w op ops,
+  (step_ok c tok g w op <->
+     (match op with OCall sh _ i => i_dst i = (wc_shard_of c (i_rcpt i) =? sh) | _ => True end)
+     /\ match op_exec c w op with
+        | None => True
+        | Some (sh, fn, i) =>
+          ((fn = C.BuiltInFunctionSetESDTRole /\ argn i 0 = tok /\ In C.ESDTRoleNFTCreate (tl (i_args i))) ->
+             g = false /\ cnt C.ESDTRoleNFTCreate (tl (i_args i)) = 1%nat)
+          /\ ~ (fn = C.BuiltInFunctionUnSetESDTRole /\ argn i 0 = tok /\ In C.ESDTRoleNFTCreate (tl (i_args i)))
+          /\ ((fn = C.BuiltInFunctionESDTNFTCreateRoleTransfer /\ argn i 0 = tok) ->
+                match op with
+                | OCall _ _ _ => i_caller i = SC /\ holder c w tok sh (i_rcpt i)
+                | ODeliver _ _ | ORefund _ _ => True
+                | ORedeliver _ _ => False
+                end)
+        end)
+  /\ (disciplined c tok g w (op :: ops) <->
+        step_ok c tok g w op /\ disciplined c tok (g || grant_attempt c tok w op) (wstep c w op) ops)
+  /\ (disciplined c tok g w [] <-> True)
+  /\ grant_attempt c tok w op =
+       match op_exec c w op with
+       | Some (_, fn, i) => (beqb fn C.BuiltInFunctionSetESDTRole && beqb (argn i 0) tok
+                             && bytes_in C.ESDTRoleNFTCreate (tl (i_args i)))%bool
+       | None => false
+       end
+  /\ (nowrap c tok w (op :: ops) <->
+        match op_exec c w op with
+        | Some (sh, fn, i) => fn = C.BuiltInFunctionESDTNFTCreate -> argn i 0 = tok ->
+                              wcounter w tok sh (i_caller i) + 1 < two64
+        | None => True
+        end /\ nowrap c tok (wstep c w op) ops).
+Proof. intros. split; [reflexivity|]. split; [reflexivity|]. split; [reflexivity|]. split; reflexivity. Qed.
+Example C07_world_observables_unfolded : forall (c : wcfg) w tok sh a m,
+  wcounter w tok sh a = counter_at (mk_state (shard_accts w sh)) a tok
+  /\ wroles c w tok sh a = roles_at (env_at c sh) (mk_state (shard_accts w sh)) a tok
+  /\ (holder c w tok sh a <-> has_role (env_at c sh) (mk_state (shard_accts w sh)) a tok C.ESDTRoleNFTCreate = true)
+  /\ (init_ok c tok w <->
+        (N.to_nat (wc_nshards c) <= length (shards w))%nat
+        /\ filter (is_hmsg tok) (inflight w) = [] /\ forall sh a, ~ holder c w tok sh a)
+  /\ is_hmsg tok m = (beqb (m_fn m) C.BuiltInFunctionESDTNFTCreateRoleTransfer && beqb (nth 0 (m_args m) []) tok)%bool.
+Proof. intros. split; [reflexivity|]. split; [reflexivity|]. split; [apply holder_has_role|]. split; reflexivity. Qed.
+(* the instrumented run: one record per successful execution; same final world as [wrun] *)
+Example C07_wrun_log_unfolded : forall (c : wcfg) w op ops tok x,
+  wrun_log c w [] = (w, [])
+  /\ wrun_log c w (op :: ops) = (fst (wrun_log c (wstep c w op) ops),
+                                 opt_list (step_log c w op) ++ snd (wrun_log c (wstep c w op) ops))
+  /\ step_log c w op =
+       match op_exec c w op with
+       | None => None
+       | Some (sh, fn, i) =>
+         match exec (env_at c sh) fn i (mk_state (shard_accts w sh)) with
+         | (Ok o, _) => Some {| x_sh := sh; x_fn := fn; x_in := i; x_out := o |}
+         | _ => None
+         end
+       end
+  /\ issued tok (x :: nil) =
+       (if (beqb (x_fn x) C.BuiltInFunctionESDTNFTCreate && beqb (argn (x_in x) 0) tok)%bool
+        then [bigU64 (hd [] (o_returnData (x_out x)))] else []) ++ [].
+Proof. intros. repeat split. Qed.
+Theorem C07_wrun_log_world : forall (c : wcfg) w ops, fst (wrun_log c w ops) = wrun c w ops.
+Proof. exact wrun_log_world. Qed.
+(* [op_exec] and [step_log] describe [wstep]: nothing changes unless the attempted call succeeds, and then exactly
+   the executing shard is replaced and the messages are the kept ones plus the collected ones *)
+Theorem C07_wstep_shape : forall (c : wcfg) w op,
+  match op_exec c w op with
+  | None => shards (wstep c w op) = shards w /\ inflight (wstep c w op) = inflight w
+  | Some (sh, fn, i) =>
+    (sh <? wc_nshards c) = true /\
+    match exec (env_at c sh) fn i (mk_state (shard_accts w sh)) with
+    | (Ok o, s') => shards (wstep c w op) = set_nth (N.to_nat sh) (accts s') (shards w)
+                    /\ inflight (wstep c w op) = kept w op ++ emitted c op sh fn i (next_id w) o
+    | _ => shards (wstep c w op) = shards w /\ inflight (wstep c w op) = inflight w
+    end
+  end.
+Proof. exact wstep_shape. Qed.
+
+(* ================================================================== *)
+(* histories: the invariant                                             *)
+(* ================================================================== *)
+(* CInv g w L: at most one holder of the create role OR one in-flight hand-over message for tok, never both; the
+   holder has the role exactly once; the holder's counter (the counter carried by the message) is >= every issued
+   nonce; the issued nonces are strictly increasing; before the grant nothing exists *)
+Example C07_CInv_unfolded : forall (c : wcfg) tok g w L, CInv c tok g w L ->
+  (N.to_nat (wc_nshards c) <= length (shards w))%nat
+  /\ (forall sh a, (ncreate c w tok sh a <= 1)%nat)
+  /\ (forall sh a sh' a', holder c w tok sh a -> holder c w tok sh' a' -> sh = sh' /\ a = a')
+  /\ (forall sh a, holder c w tok sh a -> Forall (fun n => n <= wcounter w tok sh a) L)
+  /\ match filter (is_hmsg tok) (inflight w) with
+     | [] => True
+     | [m] => (forall sh a, ~ holder c w tok sh a)
+              /\ exists n, m_args m = [tok; u64_bytes n] /\ n < two64 /\ Forall (fun k => k <= n) L
+     | _ => False
+     end
+  /\ (g = false -> L = [] /\ filter (is_hmsg tok) (inflight w) = [] /\ forall sh a, ~ holder c w tok sh a)
+  /\ StronglySorted N.lt L.
+Proof.
+  intros c tok g w L H. destruct H as [H1 H2 H3 H4 H5 H6 H7].
+  exact (conj H1 (conj H2 (conj H3 (conj H4 (conj H5 (conj H6 H7)))))).
+Qed.
+Theorem C07_CInv_init : forall (c : wcfg) tok w, init_ok c tok w -> CInv c tok false w [].
+Proof. exact CInv_init. Qed.
+(* preserved by EVERY disciplined step, whatever the step executes *)
+Theorem C07_CInv_step : forall (c : wcfg), codec_ok (wc_cdc c) -> forall tok g w op L,
+  CInv c tok g w L -> step_ok c tok g w op -> step_nowrap c tok w op ->
+  CInv c tok (g || grant_attempt c tok w op) (wstep c w op) (L ++ issued tok (opt_list (step_log c w op))).
+Proof. exact CInv_step. Qed.
+Theorem C07_CInv_run : forall (c : wcfg), codec_ok (wc_cdc c) -> forall tok ops g w L,
+  CInv c tok g w L -> disciplined c tok g w ops -> nowrap c tok w ops ->
+  exists g', CInv c tok g' (wrun c w ops) (L ++ issued tok (snd (wrun_log c w ops))).
+Proof. exact CInv_run. Qed.
+(* after any disciplined history: whoever holds the create role continues after the highest nonce ever issued, there
+   is one such account at most, and an undelivered hand-over message excludes a holder and carries such a counter *)
+Theorem C07_counter_ge_issued : forall (c : wcfg), codec_ok (wc_cdc c) -> forall tok w0 ops,
+  init_ok c tok w0 -> disciplined c tok false w0 ops -> nowrap c tok w0 ops ->
+  let w := wrun c w0 ops in let L := issued tok (snd (wrun_log c w0 ops)) in
+  (forall sh a, holder c w tok sh a -> Forall (fun n => n <= wcounter w tok sh a) L)
+  /\ (forall sh a sh' a', holder c w tok sh a -> holder c w tok sh' a' -> sh = sh' /\ a = a')
+  /\ (forall m, In m (inflight w) -> is_hmsg tok m = true ->
+        (forall sh a, ~ holder c w tok sh a)
+        /\ exists n, m_args m = [tok; u64_bytes n] /\ Forall (fun k => k <= n) L).
+Proof. exact counter_ge_issued. Qed.
+
+(* ================================================================== *)
+(* histories: uniqueness                                                *)
+(* ================================================================== *)
+Theorem C07_nonces_unique_histories : forall (c : wcfg), codec_ok (wc_cdc c) -> forall tok w0 ops,
+  init_ok c tok w0 -> disciplined c tok false w0 ops -> nowrap c tok w0 ops ->
+  let L := issued tok (snd (wrun_log c w0 ops)) in NoDup L /\ StronglySorted N.lt L.
+Proof. exact nonces_unique_histories. Qed.
+
+(* delivering a hand-over message again (not consuming it) when the destination still has the carried counter and
+   the role changes no counter and no role list of any token on any shard *)
+Theorem C07_redelivery_idempotent : forall (c : wcfg), codec_ok (wc_cdc c) -> forall w id gas m,
+  wf_world c w -> find_msg (inflight w) id = Some m ->
+  m_fn m = C.BuiltInFunctionESDTNFTCreateRoleTransfer -> m_caller m <> SC ->
+  let sh := wc_shard_of c (m_dest m) in let t := nth 0 (m_args m) [] in
+  wcounter w t sh (m_dest m) = bigU64 (nth 1 (m_args m) []) ->
+  holder c w t sh (m_dest m) ->
+  let w' := wstep c w (ORedeliver id gas) in
+  (forall t' sh' a, wcounter w' t' sh' a = wcounter w t' sh' a)
+  /\ (forall t' sh' a, wroles c w' t' sh' a = wroles c w t' sh' a).
+Proof. exact redelivery_idempotent. Qed.
+
+(* the discipline and the no-wrap condition are decidable along a concrete history *)
+Theorem C07_disciplinedb_ok : forall (c : wcfg) tok ops g w,
+  disciplinedb c tok g w ops = true -> disciplined c tok g w ops.
+Proof. exact disciplinedb_ok. Qed.
+Theorem C07_nowrapb_ok : forall (c : wcfg) tok ops w, nowrapb c tok w ops = true -> nowrap c tok w ops.
+Proof. exact nowrapb_ok. Qed.
+Theorem C07_init_ok_empty : forall (c : wcfg) tok n, wc_nshards c = N.of_nat n -> init_ok c tok (empty_world n).
+Proof. exact init_ok_empty. Qed.
+
+(* ---- non-vacuity: a two-shard world with [ideal_codec] ([codec_ok]), a disciplined history with a grant, creates, a
+   burn of the latest, a create for another token, a same-shard and a cross-shard hand-over, a consuming delivery,
+   further creates, and creates by the former holders (which fail) ---- *)
+Example C07_concrete_config : codec_ok (wc_cdc c7_cfg) /\ wc_nshards c7_cfg = 2
+  /\ wc_shard_of c7_cfg c7_alice = 0 /\ wc_shard_of c7_cfg c7_carol = 0 /\ wc_shard_of c7_cfg c7_bob = 1
+  /\ wc_shard_of c7_cfg SC = META /\ c7_w0 = empty_world 2.
+Proof. split; [exact c7_cfg_ok|]. repeat split. Qed.
+Example C07_good_history : c7_good =
+  [ c7_set_role 0 c7_alice c7_tok; c7_set_role 0 c7_alice c7_other;
+    c7_create 0 c7_alice c7_tok; c7_create 0 c7_alice c7_tok; c7_burn 0 c7_alice c7_tok 2;
+    c7_create 0 c7_alice c7_other;
+    c7_handover 0 c7_alice c7_tok c7_carol; c7_create 0 c7_carol c7_tok;
+    c7_handover 0 c7_carol c7_tok c7_bob; ODeliver 0 1000;
+    c7_create 1 c7_bob c7_tok; c7_create 1 c7_bob c7_tok;
+    c7_create 0 c7_alice c7_tok; c7_create 0 c7_carol c7_tok ].
+Proof. reflexivity. Qed.
+Example C07_good_successes :
+  length (snd (wrun_log c7_cfg c7_w0 c7_good)) = 12%nat
+  /\ length (snd (wrun_log c7_cfg c7_w0 (firstn 12 c7_good))) = 12%nat
+  /\ issued c7_other (snd (wrun_log c7_cfg c7_w0 c7_good)) = [1].
+Proof. exact c7_good_successes. Qed.
+Example C07_nonces_unique_nonvacuous :
+  let L := issued c7_tok (snd (wrun_log c7_cfg c7_w0 c7_good)) in
+  init_ok c7_cfg c7_tok c7_w0 /\ disciplined c7_cfg c7_tok false c7_w0 c7_good /\ nowrap c7_cfg c7_tok c7_w0 c7_good
+  /\ L = [1; 2; 3; 4; 5] /\ NoDup L /\ StronglySorted N.lt L.
+Proof. exact nonces_unique_nonvacuous. Qed.
+
+(* ---- F9 (known finding): re-delivery after a create regresses the counter ---- *)
+Example C07_f9_history : c7_f9 =
+  [ c7_set_role 0 c7_alice c7_tok; c7_create 0 c7_alice c7_tok; c7_create 0 c7_alice c7_tok;
+    c7_handover 0 c7_alice c7_tok c7_bob;
+    ORedeliver 0 1000; c7_create 1 c7_bob c7_tok;
+    ORedeliver 0 1000; c7_create 1 c7_bob c7_tok ].
+Proof. reflexivity. Qed.
+Example C07_nonces_unique_redelivery_refuted :
+  let L := issued c7_tok (snd (wrun_log c7_cfg c7_w0 c7_f9)) in
+  init_ok c7_cfg c7_tok c7_w0 /\ nowrap c7_cfg c7_tok c7_w0 c7_f9
+  /\ L = [1; 2; 3; 3] /\ ~ NoDup L
+  /\ disciplinedb c7_cfg c7_tok false c7_w0 c7_f9 = false
+  /\ disciplinedb c7_cfg c7_tok false c7_w0 (firstn 4 c7_f9) = true.
+Proof. exact nonces_unique_redelivery_refuted. Qed.
+(* F9, second shape: two holders after the role has moved on *)
+Example C07_two_holders_redelivery_refuted :
+  let w := wrun c7_cfg c7_w0 c7_f9b in
+  holderb c7_cfg c7_tok w 1 c7_bob = true /\ holderb c7_cfg c7_tok w 0 c7_carol = true
+  /\ issued c7_tok (snd (wrun_log c7_cfg c7_w0 c7_f9b)) = [1; 1].
+Proof. exact two_holders_redelivery_refuted. Qed.
+(* the destination branch accepts any caller without a local account: a forged destination-side call *)
+Example C07_forged_handover_refuted :
+  issued c7_tok (snd (wrun_log c7_cfg c7_w0 c7_forged)) = [1; 2; 1]
+  /\ disciplinedb c7_cfg c7_tok false c7_w0 c7_forged = false
+  /\ dst_okb c7_cfg (nth 3 c7_forged (ODeliver 0 0)) = true.
+Proof. exact forged_handover_refuted. Qed.
+(* a lying recipient-presence flag forges a hand-over MESSAGE through ESDTTransfer's attached call *)
+Example C07_lying_presence_flag_refuted :
+  issued c7_tok (snd (wrun_log c7_cfg c7_w0 c7_lying)) = [1; 1]
+  /\ map (dst_okb c7_cfg) c7_lying = [true; true; true; true; false; true; true]
+  /\ length (snd (wrun_log c7_cfg c7_w0 c7_lying)) = 7%nat.
+Proof. exact lying_presence_flag_refuted. Qed.
+(* re-delivery with nothing created in between on the F9 history: counter stays 2 *)
+Example C07_redelivery_idempotent_nonvacuous :
+  let w := wrun c7_cfg c7_w0 (firstn 5 c7_f9) in
+  exists m, find_msg (inflight w) 0 = Some m /\ m_fn m = C.BuiltInFunctionESDTNFTCreateRoleTransfer
+            /\ m_caller m = c7_alice /\ m_dest m = c7_bob /\ m_args m = [c7_tok; u64_bytes 2]
+            /\ wcounter w c7_tok 1 c7_bob = 2 /\ holderb c7_cfg c7_tok w 1 c7_bob = true
+            /\ wcounter (wstep c7_cfg w (ORedeliver 0 1000)) c7_tok 1 c7_bob = 2.
+Proof. exact redelivery_idempotent_nonvacuous. Qed.
+
 Print Assumptions C07_create_returns_counter_succ.
+Print Assumptions C07_handover_moves_counter_same_shard.
+Print Assumptions C07_handover_moves_counter_cross_shard.
+Print Assumptions C07_collect_handover.
+Print Assumptions C07_handover_delivered.
+Print Assumptions C07_exec_rn_frame.
+Print Assumptions C07_set_role_effect.
+Print Assumptions C07_collect_not_handover.
+Print Assumptions C07_wrun_log_world.
+Print Assumptions C07_wstep_shape.
+Print Assumptions C07_CInv_init.
+Print Assumptions C07_CInv_step.
+Print Assumptions C07_CInv_run.
+Print Assumptions C07_counter_ge_issued.
+Print Assumptions C07_nonces_unique_histories.
+Print Assumptions C07_redelivery_idempotent.
+Print Assumptions C07_disciplinedb_ok.
+Print Assumptions C07_nowrapb_ok.
+Print Assumptions C07_init_ok_empty.
+Print Assumptions C07_nonces_unique_nonvacuous.
+Print Assumptions C07_nonces_unique_redelivery_refuted.
+Print Assumptions C07_two_holders_redelivery_refuted.
+Print Assumptions C07_forged_handover_refuted.
+Print Assumptions C07_lying_presence_flag_refuted.
+Print Assumptions C07_redelivery_idempotent_nonvacuous.
